@@ -28,6 +28,8 @@ EXPLANATION = (
     "formats, frozen table).  Declined: equality of each frame with a single load (values); titles that "
     "look like separators (data-dependent)."
 )
+TECHNIQUE += '; counted-loop consumption idiom check'
+EXPLANATION += ' Added: (R8) counted record loops read lines with next(lit) (raises at end of file), never through zip/islice over the line iterator or next(lit, default).'
 TRUSTED = ["CPython ast parser", "PEP 479", "a for-loop consumes its iterator lazily, one element per iteration"]
 
 CONCAT_FORMATS = ("xyz", "extxyz", "pdb", "mol2", "sdf", "gromacs")
